@@ -146,7 +146,7 @@ def backend_runs(r, quick):
 
 
 def run():
-    chk = Check("C19", props_modules=["GFO.Props.C19", "GFO.Props.LocalRuns", "GFO.Props.PopRuns", "GFO.Props.EvoRuns", "GFO.Props.PatternRuns", "GFO.Gen.TrackerGenCheck"], gen_steps=(translators.gen_tracker,))
+    chk = Check("C19", props_modules=["GFO.Props.C19", "GFO.Props.LocalRuns", "GFO.Props.PopRuns", "GFO.Props.EvoRuns", "GFO.Props.PatternRuns", "GFO.Props.PowellRuns", "GFO.Gen.TrackerGenCheck"], gen_steps=(translators.gen_tracker,))
     chk.build_and_audit()
     r = C.rng("C19")
     quick = C.tier() != "thorough"
@@ -163,5 +163,6 @@ def run():
     localgen.add_to(chk, C.rng("C19-local"), 8 if C.tier() != "thorough" else 80, constraint_p=0.5)
     localgen.add_pt_to(chk, C.rng("C19-pt"), 20 if C.tier() != "thorough" else 200, constraint_p=0.5)
     localgen.add_pattern_to(chk, C.rng("C19-pattern"), 20 if C.tier() != "thorough" else 200, constraint_p=0.5, nonfinite_p=0.2)
+    localgen.add_powell_to(chk, C.rng("C19-powell"), 20 if C.tier() != "thorough" else 200, constraint_p=0.6, nonfinite_p=0.2)
     scen.shutdown_manager()
     return chk.finish()
